@@ -3,14 +3,9 @@ Line-protocol driver: one JSON request per line on stdin, one JSON response per 
 `{"op": ..., ...}`  ->  `{"ok": <value>}` | `{"err": "..."}`.
 Runs the executable definitions of the model/specification that the theorems are about.
 -/
-import MorphKgc.Drv.Util
-import MorphKgc.Drv.C20
+import MorphKgc.Drv.All
 
 open Lean Drv
-
-def handlers : List (String → Json → Option (R Json)) := [
-  Drv.C20.handle
-]
 
 def dispatch (line : String) : Json :=
   match Json.parse line with
